@@ -26,7 +26,7 @@ structure St where
   globals : List Nat
   /-- number of the identifier `get_global_mem_id()` -/
   gid : Nat
-deriving Repr
+deriving Repr, DecidableEq
 
 namespace St
 
